@@ -130,7 +130,7 @@ def mouse_combo_cases(tier, rng):
 def nontrivial(case, out):
     return 'VB true' in out or 'V1 1' in out or 'V2 ' in out
 
-STAGES = [dict(name='reads', mode='app', coq='Check.C15c', cases=cases, nontrivial=nontrivial, shard=6,
+STAGES = [dict(name='reads', mode='app', coq='Check.C15c', profile=('Proofs.JudgeProfiles', 'JudgeProfiles.prof_C15', 'C15_app_judgement_sound_all (C15_app_judgement_sound / _transfer for non-consuming profiles)'), cases=cases, nontrivial=nontrivial, shard=6,
                exhaustive={'thorough': True, 'quick': False},
                rule='real contexts with non-consuming actions and a probe modifier on every binding; input through the real Bevy input resources/events. '
                     'Keyboard key and mouse button under all 16 modifier masks x subsets of the eight modifier keys (all 256 in thorough, 96 sampled in quick) x bound key up/down x an unrelated key up/down; '
